@@ -510,6 +510,21 @@ func (s *Stage) Recover() {
 				oldest = info.ModTime()
 			}
 			base := strings.TrimSuffix(path, compExt)
+			// A crash between the two renames of fileutil.Move leaves the
+			// validated (and already logged) file under its target name plus
+			// the lock extension: complete the move
+			targetName := cmp.Name
+			if cmp.Renamed != "" {
+				targetName = cmp.Renamed
+			}
+			targetPath := filepath.Join(s.targetDir, targetName)
+			if _, err = os.Stat(targetPath + fileutil.LockExt); err == nil {
+				if err = os.Rename(targetPath+fileutil.LockExt, targetPath); err != nil {
+					s.logError("Failed to complete interrupted move:", targetPath, err.Error())
+				} else {
+					s.logInfo("Completed interrupted move:", cmp.Name)
+				}
+			}
 			if _, err = os.Stat(base + waitExt); !os.IsNotExist(err) {
 				// .wait
 				s.logDebug("Found ready to finalize:", cmp.Name)
